@@ -676,6 +676,9 @@ class CSSStyleSheet(cssutils.stylesheets.StyleSheet):
                 # always first and only
                 if self._cssRules and self._cssRules[0].type == rule.CHARSET_RULE:
                     self._cssRules[0].encoding = rule.encoding
+                    # only the encoding is used, rule itself is not part of
+                    # this sheet and must not get it as parent
+                    return index
                 else:
                     self._cssRules.insert(0, rule)
             elif index != 0 or (
